@@ -553,7 +553,8 @@ def run_unit(unit, tier='quick'):
 
     try:
         paths = explore(run, assume=[], on_path=on_path, max_paths=unit.opts.get('max_paths', 3000),
-                        prefix=[ch == 'T' for ch in unit.params.get('shard', '')])
+                        prefix=[ch == 'T' for ch in unit.params.get('shard', '')],
+                        deadline=t0 + budget_s)
     except EngineUnsupported as ex:
         res['status'] = 'unsupported'
         res['notes'].append(f"EngineUnsupported: {ex}")
@@ -592,7 +593,7 @@ def run_unit(unit, tier='quick'):
                 okeys[k] = True
             except Exception:
                 okeys[k] = False
-        if unit.opts.get('no_crosscheck') and any(cv.get('verdict') == 'sat' for cv in res['covers']):
+        if (unit.opts.get('no_crosscheck') or time.time() - t0 > budget_s) and any(cv.get('verdict') == 'sat' for cv in res['covers']):
             v, m, t = 'skipped', None, 0.0      # vacuity guard already satisfied; no model needed
         else:
             v, m, t = core.z3_check(hyps + links, z3.BoolVal(True), 4000, evals=ev)
